@@ -19,7 +19,7 @@ EXPLANATION = (
     "environment together, consults the environment before generating, and resolves every syntax-quoted symbol except the "
     "enumerated exemptions; resolve_alias qualifies every unqualified non-special symbol."
 )
-DECIDES = "destructuring templates (key agreement, documented accessors), gensym environment scoping, resolution of syntax-quoted symbols, every sub-pattern expanded once in place, names bound in source order in fn and loop, collection kinds rebuilt by syntax-quote at every size"
+DECIDES = "destructuring templates (key agreement, documented accessors), gensym environment scoping, resolution of syntax-quoted symbols, every sub-pattern expanded once in place, names bound in source order in fn and loop, collection kinds rebuilt by syntax-quote at every size, resolution is asked anew for every symbol (no memoisation across the forms of a stream)"
 DECLINED = "every pattern x every value; macroexpansion equivalence (runtime values)"
 TRUSTED = ["nth / nthnext / get semantics of basilisp.core"]
 ASSUMPTIONS = []
@@ -542,3 +542,44 @@ SELFTEST = [
     {"name": "namespaced symbols skip resolution", "file": RD, "expect": "C09.R4",
      "old": "    if ctx.is_syntax_quoted and not name.endswith(\"#\") and not is_reader_macro_sym:\n        return ctx.resolve(sym.symbol(name, ns))", "new": "    if ctx.is_syntax_quoted and ns is None and not name.endswith(\"#\") and not is_reader_macro_sym:\n        return ctx.resolve(sym.symbol(name, ns))"},
 ]
+
+
+@rule("C09.R11", floor=2)
+def r11_resolution_is_asked_anew_for_every_symbol(ctx):
+    """One reader context reads a whole file, and the forms read are evaluated between the reads: a
+    `def`, a `require ... :refer` or an `alias` in the middle of the file changes what a bare or
+    aliased symbol denotes for the templates that follow.  So `ReaderContext.resolve` asks the
+    resolver it was given on *every* call -- every value it returns is the result of a
+    `self._resolve(...)` call made in that invocation, none is handed out of a table filled by an
+    earlier one -- and `resolve_alias` itself carries no memoising decorator."""
+    tree = ctx.py(RD)
+    cls = next((c for c in P.all_classes(tree) if c.name == "ReaderContext"), None)
+    m = P.methods(cls).get("resolve") if cls is not None else None
+    if m is None:
+        raise AnalysisError("ReaderContext.resolve not found")
+    init = P.methods(cls).get("__init__")
+    # the attribute(s) the resolver given to the context is stored in
+    slots = {t.attr for a in ast.walk(init) if isinstance(a, ast.Assign) for t in a.targets
+             if P.is_self_attr(t) and any(isinstance(x, ast.Name) and x.id == "resolver" for x in ast.walk(a.value))}
+    if not slots:
+        raise AnalysisError("ReaderContext.__init__ does not store its resolver")
+    g = CFG(m)
+
+    ask_nodes = [nd for nd in g.nodes if nd.kind in ("stmt", "test") and nd.ast is not None and not isinstance(nd.ast, (ast.If, ast.While, ast.For, ast.Try, ast.With))
+                 and any(isinstance(c, ast.Call) and P.is_self_attr(c.func) and c.func.attr in slots for c in ast.walk(nd.ast))]
+    rets = [nd for nd in g.nodes if nd.kind == "stmt" and isinstance(nd.ast, ast.Return)]
+    bad = [r for r in rets if r not in ask_nodes and not g.dominated(r, ask_nodes, follow_exc=True)]
+    stores = [s for s, _a in P.self_attr_stores(m)] + [s for s in ast.walk(m) if isinstance(s, ast.Subscript) and isinstance(s.ctx, ast.Store) and P.is_self_attr(s.value)]
+    ok = bool(rets) and bool(ask_nodes) and not bad and not stores
+    why = ""
+    if not ok:
+        why = (f"`{P.un(bad[0].ast)[:80]}` can be reached without calling the resolver" if bad else
+               f"resolve writes to the context (`{P.un(stores[0])[:60]}`)" if stores else "resolve never calls the resolver it was given")
+        why += ": a symbol resolved for an earlier form of the stream keeps that meaning after a def / refer / alias evaluated in between has changed it"
+    ctx.ob("C09.R11", f"{RD}::ReaderContext.resolve::every answer is a fresh call of the resolver", RD, m.lineno, ok, why,
+           witness="file: (def t1 `first) (def first 1) (def t2 `first) -- t2 must be <this-ns>/first")
+    ra = ctx.fn(RT, "resolve_alias")
+    decs = [d for d in P.decorators(ra) if "cache" in d or "memo" in d]
+    wrapped = [a for a in ctx.py(RT).body if isinstance(a, ast.Assign) and isinstance(a.value, ast.Call) and ("cache" in P.un(a.value.func)) and "resolve_alias" in P.un(a.value)]
+    ok = not decs and not wrapped
+    ctx.ob("C09.R11", f"{RT}::resolve_alias::not memoised", RT, ra.lineno, ok, "" if ok else f"resolve_alias is wrapped in {decs or [P.un(w)[:60] for w in wrapped]}: its answer depends on the namespace's current interns, refers and aliases, which a cache does not see change")
